@@ -18,6 +18,10 @@ def tb_engine(tb, file_data, mem0, on_syscall):
         # cut of the 2^19-iteration loop of VL_RAND_RESET_I calls: memory_q := arbitrary power-on contents (one SMT array)
         o = st.wobj(a[0].obj)
         o.regions.append(Region(a[0].off + tb.memoff, 4, RTL_MEMWORDS, mem0))
+        # the other members of the memory module are reset like every register: VL_RAND_RESET_I
+        for j, (k, w) in enumerate(tb.memfields):
+            sub = Engine(tb.M); q = sub.run1('tb_memfield', [Ptr(900000, 0), j], State())[1]
+            E_.store(st, a[0].add(q.off), w, rand_reset(E_, st, [8*w]))
         return None
     def model_ctor(E_, st, a):
         E_.store(st, a[0].add(8), 8, a[1]); return None
